@@ -214,6 +214,45 @@ def check_key(net, code, se, comp, rec, m, prefixes):
     if st != "ok" or tuple(pk.public_pair()) != Pref or pk.is_compressed() is not comp or observe(pk.sec)[1] != mine \
             or observe(pk.address)[1] != addr or observe(pk.hash160)[1] != h_mine:
         rec.violation("key.public_pair_roundtrip", case, pk, Pref)
+    # the same pair handed over as a Point object of the network's own curve / as a tuple subclass
+    entry = "keys.public(pair)" if comp else "keys.public(pair, uncompressed)"
+    for form in ("point_own", "tuple_subclass"):
+        judge_pair(net, code, Pref, form, entry, rec, m)
+    # --- fresh objects queried in a case-determined order, every query twice: answers do not depend on what was asked before
+    if pa is not None and "wif" in prefixes and "addr" in prefixes:
+        import random
+        want = {("public_pair", None): Pref, ("is_compressed", None): comp}
+        for flag, blob in ((None, mine), (True, sec_c), (False, sec_u)):
+            want[("sec", flag)] = blob
+            want[("hash160", flag)] = RS.hash160(blob)
+            want[("address", flag)] = RB.encode_check(prefixes["addr"] + RS.hash160(blob))
+        priv = dict(want)
+        priv[("secret_exponent", None)] = se
+        want[("secret_exponent", None)] = None
+        for flag, c in ((None, comp), (True, True), (False, False)):
+            priv[("wif", flag)] = RB.encode_check(prefixes["wif"] + se.to_bytes(32, "big") + (b"\x01" if c else b""))
+            want[("wif", flag)] = None
+        order_rng = random.Random(se * 2 + int(comp))
+        import os
+        objects = [("private", lambda: net.keys.private(se, is_compressed=comp), priv), ("public_from_sec", lambda: net.keys.public(mine), want)]
+        if os.environ.get("PYCOIN_NATIVE") == "none":
+            objects = objects[1:]                # a further pure-Python point multiplication per case is not worth its 20 ms
+        for label, make, exp in objects:
+            st, obj = observe(make)
+            if st != "ok":
+                continue                         # reported above
+            queries = sorted(exp, key=lambda q: (q[0], str(q[1]))) * 2
+            order_rng.shuffle(queries)
+            rec.ev("key.query_history")
+            for name, flag in queries:
+                meth = getattr(obj, name)
+                st, got = observe(meth) if flag is None else observe(meth, is_compressed=flag)
+                if name == "public_pair" and st == "ok":
+                    got = tuple(got)
+                if st != "ok" or got != exp[(name, flag)]:
+                    rec.violation("key.history.%s_depends_on_earlier_queries" % name, dict(case, object=label, query=[name, flag]),
+                                  got, exp[(name, flag)])
+                    break
     return {"net": code, "secret_exponent": se, "compressed": comp, "wif": observe(k.wif)[1], "sec": mine, "address": addr}
 
 
@@ -244,6 +283,101 @@ def run_roundtrip(spec, rec, m):
                 if s and j == len(mine) - 1 and comp and ci < 2:
                     rec.sample(dict(s, op="WIF/SEC/address round trip"))
         rec.ev("networks_usable")
+
+
+PAIR_ENTRIES = ("keys.public(pair)", "keys.public(pair, uncompressed)", "Key(public_pair=)")
+# the same two coordinates in different spellings: plain tuple, tuple subclasses, pycoin Point objects bound to the key's own
+# curve / to another curve over the same field (b chosen so that the pair lies on it; a = 0 and a = 3) / to NIST P-256, a list
+PAIR_FORMS = ("tuple", "tuple_subclass", "namedtuple", "point_own", "point_same_field_b", "point_same_field_a3", "point_r1", "list")
+INFINITY_FORMS = ("tuple", "infinity_own", "infinity_same_field", "infinity_r1")
+
+
+class _PairT(tuple):
+    pass
+
+
+def _namedpair():
+    import collections
+    global _NP
+    try:
+        return _NP
+    except NameError:
+        _NP = collections.namedtuple("PublicPair", "x y")
+        return _NP
+
+
+def _wrap_pair(pr, form, net):
+    """-> the object handed to pycoin, or None when the pair cannot be spelled that way"""
+    from pycoin.ecdsa.Curve import Curve
+    from pycoin.ecdsa.secp256r1 import secp256r1_generator
+    if pr == (None, None):
+        if form == "tuple":
+            return (None, None)
+        if form == "infinity_own":
+            return net.generator.infinity()
+        if form == "infinity_same_field":
+            return Curve(P_, 0, 11).infinity()
+        if form == "infinity_r1":
+            return secp256r1_generator.infinity()
+        return None
+    x, y = pr
+    if form == "tuple":
+        return (x, y)
+    if form == "tuple_subclass":
+        return _PairT((x, y))
+    if form == "namedtuple":
+        return _namedpair()(x, y)
+    if form == "list":
+        return [x, y]
+    if form == "point_own":
+        return net.generator.Point(x, y) if C.on_curve(pr) else None
+    if form == "point_same_field_b":
+        return Curve(P_, 0, (y * y - x * x * x) % P_).Point(x, y)
+    if form == "point_same_field_a3":
+        return Curve(P_, 3, (y * y - x * x * x - 3 * x) % P_).Point(x, y)
+    if form == "point_r1":
+        return secp256r1_generator.Point(x, y) if REC.SECP256R1.on_curve(pr) else None
+    raise ValueError(form)
+
+
+def judge_pair(net, code, pr, form, entry, rec, m):
+    """a public pair in one spelling through one constructor: on secp256k1 -> that key; otherwise InvalidPublicPairError"""
+    KeyClass = m.keyclass(code)
+    if form == "list" and entry != "Key(public_pair=)":
+        return                                   # keys.public() reads a non-tuple as SEC bytes
+    obj = _wrap_pair(pr, form, net)
+    if obj is None:
+        return
+    case = {"net": code, "pair": list(pr), "entry": entry, "form": form}
+    comp = entry != "keys.public(pair, uncompressed)"
+    if entry == "keys.public(pair)":
+        fn = lambda q: net.keys.public(q)
+    elif entry == "keys.public(pair, uncompressed)":
+        fn = lambda q: net.keys.public(q, is_compressed=False)
+    else:
+        fn = lambda q: KeyClass(public_pair=q)
+    rec.case(("pair", code, pr, entry, form))
+    rec.ev("pair_form:" + form)
+    if pr == (None, None):
+        rec.ev("infinity_pair")
+        st, r = observe(fn, obj)
+        if st == "ok":
+            rec.violation("pair.accepts_infinity", case, "accepted as a key", "refused")
+        return
+    on = C.on_curve(pr)
+    rec.ev("off_curve_pair" if not on else "Key(public_pair)")
+    if form.startswith("point_") and form != "point_own":
+        rec.ev("foreign_curve_point" + (":off_curve" if not on else ":on_curve"))
+    st, r = observe(fn, obj)
+    if on:
+        if st != "ok" or tuple(r.public_pair()) != pr:
+            rec.violation("key.valid_pair_refused", case, r, pr)
+        elif observe(r.sec)[1] != RS.encode(pr, comp) or r.is_compressed() is not comp:
+            rec.violation("key.public_pair_roundtrip", case, observe(r.sec)[1], RS.encode(pr, comp))
+    elif st == "ok":
+        rec.violation("pair.accepts_off_curve", case, "accepted as a key", "InvalidPublicPairError")
+    elif form != "list" and (not isinstance(r, m.IPP) or not isinstance(r, net.keys.InvalidPublicPairError)):
+        rec.violation("pair.wrong_exception", case, r, "InvalidPublicPairError")
 
 
 # ---------------------------------------------------------------------------------------------
@@ -296,21 +430,29 @@ def run_secret(spec, rec, m):
                 pairs.append((x, y % P_))
             else:
                 pairs.append((x, rng.randrange(P_)))
-        for pr in pairs:
-            on = C.on_curve(pr)
-            for name, fn in (("keys.public(pair)", lambda q: net.keys.public(q)), ("keys.public(pair, uncompressed)", lambda q: net.keys.public(q, is_compressed=False)),
-                             ("Key(public_pair=)", lambda q: KeyClass(public_pair=q))):
-                rec.ev("off_curve_pair" if not on else "Key(public_pair)")
-                rec.case(("pair", code, pr, name))
-                st, r = observe(fn, pr)
-                case = {"net": code, "pair": pr, "entry": name}
-                if on:
-                    if st != "ok" or tuple(r.public_pair()) != pr:
-                        rec.violation("key.valid_pair_refused", case, r, pr)
-                elif st == "ok":
-                    rec.violation("pair.accepts_off_curve", case, r, "InvalidPublicPairError")
-                elif not isinstance(r, m.IPP) or not isinstance(r, net.keys.InvalidPublicPairError):
-                    rec.violation("pair.wrong_exception", case, r, "InvalidPublicPairError")
+        # pairs that lie on ANOTHER curve (NIST P-256, which pycoin ships): off secp256k1, but constructible as Point objects
+        R1 = REC.SECP256R1
+        r1_pairs = [R1.mul(e, R1.G) for e in [1, 2, 3, R1.n - 1, R1.n - 2, (R1.n + 1) // 2]
+                    + [rng.randrange(1, R1.n) for _ in range(max(2, spec["n"] // 8))]]
+        # genuine points: every spelling must be accepted
+        good = [C.G, C.mul(2, C.G), C.neg(C.G)]
+        while len(good) < 3 + max(3, spec["n"] // 8):
+            t = C.lift_x(rng.randrange(P_))
+            if t:
+                good.append(t[rng.randrange(2)])
+        for pi, pr in enumerate(pairs + r1_pairs + good):
+            forms = ["tuple"]
+            extra = [f for f in PAIR_FORMS[1:] if _wrap_pair(pr, f, net) is not None]
+            if pr in r1_pairs or pr in good or pi < 10:
+                forms += extra                                  # every constructible spelling
+            else:
+                forms += [extra[(pi + j) % len(extra)] for j in range(2)]
+            for form in forms:
+                for entry in PAIR_ENTRIES:
+                    judge_pair(net, code, pr, form, entry, rec, m)
+        for form in INFINITY_FORMS:
+            for entry in PAIR_ENTRIES:
+                judge_pair(net, code, (None, None), form, entry, rec, m)
         rec.ev("networks_usable")
     rec.sample({"op": "Key(secret_exponent=n)", "expected": "InvalidSecretExponentError", "networks": len(m.nets)})
 
@@ -626,7 +768,7 @@ def run_shard(spec, rec):
         rec.require("parse.wif", "keys.public(sec)", "Key.from_sec", "key.sec", "key.hash160", "key.address", "key.wif")
         run_roundtrip(spec, rec, m)
     elif kind == "secret":
-        rec.require("bad_secret_exponent", "off_curve_pair")
+        rec.require("bad_secret_exponent", "off_curve_pair", "foreign_curve_point:off_curve", "pair_form:point_own", "infinity_pair")
         run_secret(spec, rec, m)
     elif kind == "sec":
         rec.require("Key.from_sec", "keys.public(sec)", "sec_to_public_pair", "sec_class:x_ge_p", "sec_class:prefix", "sec_class:ok")
@@ -652,15 +794,8 @@ def replay_case(case, rec):
             rec.violation("wif.parse_accepts_out_of_range_exponent", case, r, "None or exception")
     elif "pair" in case:
         net = m.nets[case["net"]]
-        pr = tuple(int(v) for v in case["pair"])
-        st, r = observe(net.keys.public, pr)
-        if C.on_curve(pr):
-            if st != "ok":
-                rec.violation("key.valid_pair_refused", case, r, pr)
-        elif st == "ok":
-            rec.violation("pair.accepts_off_curve", case, r, "InvalidPublicPairError")
-        elif not isinstance(r, m.IPP):
-            rec.violation("pair.wrong_exception", case, r, "InvalidPublicPairError")
+        pr = tuple(None if v is None else int(v) for v in case["pair"])
+        judge_pair(net, case["net"], pr, case.get("form", "tuple"), case.get("entry", "keys.public(pair)"), rec, m)
     elif "entry" in case and "se" in case:
         net = m.nets[case["net"]]
         st, r = observe(net.keys.private, int(case["se"]))
